@@ -218,7 +218,7 @@ class LockOracle(Observer):
 # ======================================================================================
 # numeric policy (DESIGN 2.6)
 # ======================================================================================
-_EPS_FACTOR = {"float64": 1e5, "float32": 2e3, "float16": 64}
+_EPS_FACTOR = {"float64": 1e5, "float32": 1e4, "float16": 100}
 
 
 def close(actual, expected, exact, scale=1.0, dtype=None):
@@ -458,8 +458,7 @@ class TapeValueOracle(Observer):
                 if w.violation(self.prop, f"{self.prop}.value_shape", f"step {w.nstep}: handle {h} has shape {d.shape}, functional program gives {e.shape}", tag=f"{self.prop}.value_shape/{ev['k']}:{ev.get('form') or ev.get('op') or ''}"):
                     return
                 continue
-            sc = float(np.max(np.abs(e))) if e.size and np.all(np.isfinite(e)) else 1.0
-            if not close(d, e, w.exact, max(sc, 1.0), dtype=w.tol_dtype):
+            if not close(d, e, w.exact, tp.vmax, dtype=w.tol_dtype):
                 if w.violation(
                     self.prop,
                     f"{self.prop}.value",
@@ -487,19 +486,30 @@ class CrossScheduleOracle(Observer):
         for h, t in w.T.items():
             if off <= h < off + 900:
                 g = t.grad
-                cur[h - off] = (None if g is None else np.array(g, copy=True), np.array(t.data, copy=True), w.info[h].const)
+                e = (rec.get("expected") or {}).get(h)
+                mv = w.tape.val(w.info[h].nid)
+                cur[h - off] = (None if g is None else np.array(g, copy=True), np.array(t.data, copy=True), w.info[h].const, e, mv)
         if self.ref is None:
             self.ref = (cur, bool(rec.get("nondiff")))
             return
         ref, ref_nd = self.ref
         nd = ref_nd or bool(rec.get("nondiff"))
-        for lh, (g, d, c) in cur.items():
+        for lh, (g, d, c, e, mv) in cur.items():
             if lh not in ref:
                 continue
-            g0, d0, c0 = ref[lh]
+            g0, d0, c0, e0, mv0 = ref[lh]
+            # the two schedules must still be the same program according to the model (a shrunk
+            # history may have lost statements of one schedule only): otherwise nothing to compare
+            if mv.shape != mv0.shape or not close(mv, mv0, False, w.tape.vmax):
+                continue
+            if e is None or e0 is None or e[0] != e0[0]:
+                continue
+            if e[0] == "val" and (np.shape(e[1]) != np.shape(e0[1]) or not close(np.asarray(e[1]), np.asarray(e0[1]), False, rec.get("scale", 1.0))):
+                continue
             if not _bytes_equal(d, d0):
-                # commutative swaps are value-exact for + * max min; sequences may re-associate
-                if not close(d, d0.astype(np.float64), False, float(np.max(np.abs(d0))) if d0.size else 1.0, dtype=w.tol_dtype):
+                # sequences may re-associate: values are compared bit-exactly only on certified
+                # exact runs, otherwise against the largest magnitude seen in the run (cancellation)
+                if w.exact or not close(d, d0.astype(np.float64), False, w.tape.vmax, dtype=w.tol_dtype):
                     if w.violation("C01", "C01.schedule_value", f"step {w.nstep}: logical tensor {lh} has different values under schedule {ev['j']}", tag="C01.schedule_value"):
                         return
             if (g is None) != (g0 is None):
@@ -508,7 +518,7 @@ class CrossScheduleOracle(Observer):
                 continue
             if g is None or nd:
                 continue
-            sc = max(1.0, float(np.max(np.abs(g0))) if g0.size else 1.0, rec.get("scale", 1.0))
+            sc = max(1.0, float(np.max(np.abs(g0))) if g0.size else 1.0, rec.get("scale", 1.0)) * max(1.0, w.tape.vmax)
             ok = np.array_equal(g, g0) if (w.exact and g.dtype == np.float64) else close(g, g0.astype(np.float64), False, sc, dtype=w.tol_dtype)
             if not ok:
                 if w.violation(
